@@ -20,6 +20,7 @@ import (
 const SSTablePrefix = "sstable"
 const SSTablePattern = SSTablePrefix + "_%015d"
 const SSTableCompactionPathPrefix = SSTablePrefix + "_compaction"
+const SSTableFlushPathPrefix = "flush_" + SSTablePrefix
 const CompactionFinishedSuccessfulFileName = "compaction_successful"
 const WriteAheadFolder = "wal"
 const MemStoreMaxSizeBytes uint64 = 1024 * 1024 * 1024 // 1gb
